@@ -126,3 +126,40 @@ PROPS["C13"] = {
     "runs": [{"name": "kernel-asan", "src": "h_kernel.c", "variant": "asan", "exclude": RS28_TU},
              {"name": "kernel-plain", "src": "h_kernel.c", "variant": "plain", "exclude": RS28_TU}],
 }
+
+# ---------------------------------------------------------------------------- encoder / code construction (h_enc.c)
+ENC_ASSUME = [
+    "reference generator: systematic form of the Vandermonde matrix on points 0,1,x,x^2,.. over GF(2^m) with polynomials 0x13 / 0x11d (engine/ref.c rsr_generator), MDS by the Vandermonde argument",
+    "rfc5170_ref is an independent transcription of RFC 5170 §5.7/§6.2 on a dense ESI-indexed bit matrix (anchored by the 10000th PRNG output); a misreading of the RFC shared with the library would go unnoticed",
+    "identity payload reads the encoder's linear map off completely (data-obliviousness, DESIGN.md §2); a dense part is carried along",
+]
+PROPS["C05"] = {
+    "level": "model_checking", "assumptions": ENC_ASSUME,
+    "claim": "for every (k,r,N1,seed) of the grid and every pollution prefix (6 histories of other sessions, incl. a rejected configuration, an ML-decoding session and a displaced PRNG state): the parity-check matrix walked by rows and by columns in an encoder and in a decoder session equals the RFC 5170 reference entry by entry, and the encoder's codeword satisfies every reference equation (behavioural H); the interleaved case is C12",
+    "technique": "exhaustive enumeration of a parameter grid x history prefixes on the real code against an independent RFC 5170 reference model",
+    "rule": "point = (k,r,N1,seed,prefix); states = points, transitions = build_repair_symbol calls; all points distinct",
+    "bounds": {"quick": "k in {1..12,16,20,32}+3 large points, r in {3..12,16,32}, N1 3..min(r,10), seeds {1,2,2^31-2}, 6 prefixes", "thorough": "k up to 1000, r up to 500, 7 seeds, 6 prefixes (2 for the largest)"},
+    "runs": [{"name": "ldpc-trk", "src": "h_enc.c", "variant": "trk", "args": ["--mode", "ldpc"]}],
+}
+PROPS["C06"] = {
+    "level": "model_checking", "assumptions": ENC_ASSUME,
+    "claim": "RS: for m=4 all 105 (k,n), for m=8 and codec 1 the k list with n in {k+1,255} and all n<=12 (thorough: all k, n<=24): every repair ESI on the identity+dense payload equals the reference generator row (so codec 1 and codec 2/m=8 are byte-identical), enc_matrix of encoder and decoder sessions equals the reference; LDPC: the C05 grid, every reference equation sums to zero over the produced codeword; both slot modes, source buffers compared with pristine copies, NULL slot becomes a fresh library block with the same value; symbol lengths 1..40,64,65,1024 on a reduced list; repeated under AddressSanitizer",
+    "technique": "exhaustive enumeration of parameter grids x repair ESIs x slot modes on the real encoders against reference models",
+    "rule": "point = (codec,m,k,n,len) or (k,r,N1,seed,prefix); transitions = repair symbols built and compared",
+    "bounds": {"quick": "see claim (quick lists)", "thorough": "see claim (thorough lists)"},
+    "runs": [{"name": "rs-trk", "src": "h_enc.c", "variant": "trk", "args": ["--mode", "rs"]},
+             {"name": "ldpc-trk", "src": "h_enc.c", "variant": "trk", "args": ["--mode", "ldpc"]},
+             {"name": "rs-asan", "src": "h_enc.c", "variant": "asan", "args": ["--mode", "rs"]},
+             {"name": "ldpc-asan", "src": "h_enc.c", "variant": "asan", "args": ["--mode", "ldpc"], "tiers": ("thorough",)}],
+}
+PROPS["C15"] = {
+    "level": "model_checking", "assumptions": ENC_ASSUME + ["when the claim is true, every source column of the reference matrix has even weight (summing all equations cancels the staircase), so zero on the identity payload implies zero for all data by linearity"],
+    "claim": "for every (k,r,N1,seed) of the grid: encoder and decoder sessions give the same IS_LAST_SYMBOL_NULL answer; whenever it is true every source column of the RFC matrix has even weight and the encoder's last repair symbol on the identity+dense payload is all zero",
+    "technique": "exhaustive enumeration of a parameter grid on the real code against the RFC 5170 reference model",
+    "rule": "point = (k,r,N1,seed); non-trivial points are those where the claim is true (counted as null_last_claims)",
+    "bounds": {"quick": "k 1..12, r 3..10, N1 3..min(r,10), seeds 1..5, plus high-rate points", "thorough": "k 1..24, r 3..16, seeds 1..20,16807,2^31-2, plus high-rate points up to k=400"},
+    "runs": [{"name": "ldpc-trk", "src": "h_enc.c", "variant": "trk", "args": ["--mode", "ldpc"]}],
+}
+PROPS["C02"]["runs"] += [{"name": "rsgen-trk", "src": "h_enc.c", "variant": "trk", "args": ["--mode", "rs"]}]
+PROPS["C07"]["runs"] += [{"name": "enc-rs-asan", "src": "h_enc.c", "variant": "asan", "args": ["--mode", "rs"]},
+                         {"name": "enc-ldpc-asan", "src": "h_enc.c", "variant": "asan", "args": ["--mode", "ldpc"]}]
